@@ -101,14 +101,20 @@ Theorem C05_forward_decl_refuted :
 Proof. vm_compute. repeat split. Qed.
 Print Assumptions C05_forward_decl_refuted.
 
-(* B5: a function in the LIMIT of a numeric for whose STEP also holds a function on a later line: its parameter is
-   not found (FindMinScope's early exit; numeric for visits init, step, limit) *)
-Theorem C05_for_step_order_refuted :
-  has_deviation CB5 (chunk_of src_for_step) = true /\
-  run_define [(a_lua, src_for_step)] a_lua 1 7 = ALocs [] /\
+(* B5, FIXED (fixes/C05-for-step-order.diff): numeric for visited init, STEP, limit: a function scope of the step was stored
+   before the function scopes of the limit, FindMinScope's early exit (`subScope.StartLine > line => break`) then never
+   reached a function in the limit that starts on an earlier line: its parameters/locals resolved to nothing and were not
+   completed.  The witness deviates for the code before the repair (`no_fixes`) and no longer for the code in /repo. *)
+Theorem C05_for_step_order_refuted_before_fix :
+  run_define_fx no_fixes [(a_lua, src_for_step)] a_lua 1 7 = ALocs [] /\
   option_map s_bind (spec_occ [(a_lua, src_for_step)] a_lua 1 7) = Some (BLocal (mk_loc 1 22 1 24)).
 Proof. vm_compute. repeat split. Qed.
-Print Assumptions C05_for_step_order_refuted.
+Print Assumptions C05_for_step_order_refuted_before_fix.
+Theorem C05_for_step_order_fixed :
+  run_define [(a_lua, src_for_step)] a_lua 1 7 = ALocs [(a_lua, mk_loc 1 22 1 24)] /\
+  option_map s_bind (spec_occ [(a_lua, src_for_step)] a_lua 1 7) = Some (BLocal (mk_loc 1 22 1 24)).
+Proof. vm_compute. repeat split. Qed.
+Print Assumptions C05_for_step_order_fixed.
 
 (* doc_end, FIXED (fixes/C05-doc-end.diff): cursor at the very end of a file without trailing newline.  Before the repair
    the handler answered nothing (`offset >= len(contents)`; model variant `no_fixes`); now it answers the declaration *)
@@ -137,8 +143,9 @@ Proof. vm_compute. repeat split. Qed.
    Proofs/PositionBind*.v.  Guards (all boolean, computed from the program alone):
      in_fragment P         the core fragment of Spec/LuaScope.v;
      Laid2 P               = exists W, laid2_b W P = true: the layout hypothesis `Laid` with the Locs of EMPTY
-                             if-branches included, plus shape_ok P (one block per if-condition, one Loc per local name,
-                             and no function expression in the STEP of a numeric for = class B5 excluded program-wide);
+                             if-branches included, plus shape_ok P (one block per if-condition, one Loc per local name;
+                             the former conjunct "no function expression in the STEP of a numeric for" = class B5
+                             excluded program-wide is GONE since fixes/C05-for-step-order.diff);
      no_repoint P          no assignment `n = <name | call | function>` to a name that a local of the file carries while
                              declared without a value (class B4 excluded program-wide);
      classB_ok o           the occurrence carries no class tag (B1 B2 B3 per occurrence). *)
@@ -171,7 +178,7 @@ Proof. exact chain_covers_env. Qed.
 Print Assumptions C05_chain_covers_binder_env.
 
 (* layer 3 = the theorem: go-to-definition on a local follows Lua's scoping.  For every laid-out program of the
-   fragment outside classes B4/B5, every untagged occurrence (declaration, read or write) that Lua binds to a local
+   fragment outside class B4, every untagged occurrence (declaration, read or write) that Lua binds to a local
    declaration d, and every cursor column on the identifier (both ends), the position resolver answers d *)
 Theorem C05_define_local_partial : forall P,
   in_fragment P = true -> Laid2 P -> no_repoint P = true -> define_local_at classB_ok P.
@@ -186,6 +193,15 @@ Example C05_core_guards_nonvacuous :
   core_guards_b 1000%Z (chunk_of src_core) = true /\ all_class_ok (chunk_of src_core) = true /\
   length (bind_file (chunk_of src_core)) = 43%nat /\
   forallb (fun o => negb (deviates_at_start (chunk_of src_core) o)) (bind_file (chunk_of src_core)) = true.
+Proof. vm_compute. repeat split. Qed.
+
+(* since fixes/C05-for-step-order.diff the guards no longer exclude class B5: the former witness program (a function
+   expression in the LIMIT and in the STEP of a numeric for, on different lines) satisfies them, none of its
+   occurrences is tagged, and the position resolver agrees with the reference binder at every occurrence *)
+Example C05_core_guards_cover_B5 :
+  core_guards_b 1000%Z (chunk_of src_for_step) = true /\ all_class_ok (chunk_of src_for_step) = true /\
+  length (bind_file (chunk_of src_for_step)) = 5%nat /\
+  forallb (fun o => negb (deviates_at_start (chunk_of src_for_step) o)) (bind_file (chunk_of src_for_step)) = true.
 Proof. vm_compute. repeat split. Qed.
 
 (* ================================================================== wide fragment (agent wide-fragment)
